@@ -441,6 +441,79 @@ def rule_language_and_case(ck: Check, repo: Repo, folder: Folder, rid: str = "R5
     # ProjectReport.generate classification of LICENSES/ entries is decided in C01-R3 (bad / deprecated)
 
 
+def rule_inventory_loop(ck: Check, repo: Repo, rid: str = "R6") -> None:
+    """ProjectReport.generate, per entry of LICENSES/: bad iff its identifier is not in the licence map, else deprecated
+    iff the map marks it so; the extension-less set is the project's.  The three classifications are independent of
+    one another (an extension-less deprecated licence is both)."""
+    r = ck.rule(rid, "LICENSES/ entries: bad ⇔ not in the map; deprecated ⇔ map marks it (whatever else is true of the entry)")
+    q = f"{RP}.ProjectReport.generate"
+    fn = repo.func(q)
+    ck.analysed_fn(q)
+
+    class H(Hooks):
+        def atom(self, text, node, it):
+            if re.fullmatch(r"(\w+) in project\.license_map", text):
+                return "@in_map"
+            if re.fullmatch(r"project\.license_map\[(\w+)\]\['isDeprecatedLicenseId'\]", text) or \
+                    re.fullmatch(r"project\.license_map\[(\w+)\]\.get\('isDeprecatedLicenseId'(, False)?\)", text):
+                return "@marked_deprecated"
+            return None
+
+        def event(self, text, call, it):
+            f = ast.unparse(call.func)
+            if f.endswith(".add") and ("bad_licenses" in f or "deprecated_licenses" in f):
+                return ("classify", "bad" if "bad_licenses" in f else "deprecated", [it.text(a) for a in call.args], f)
+            return None
+
+        def store(self, ttext, vt, target, it):
+            if ttext.endswith(".licenses_without_extension"):
+                return ("without-extension", vt)
+            return None
+
+    def ref(v):
+        if not v("@in_map"):
+            return ["bad"]
+        if v("@marked_deprecated"):
+            return ["deprecated"]
+        return []
+
+    leaves = tabulate(fn, H(), ref)
+    seen = set()
+    n = 0
+    for d, leaf, exp in leaves:
+        got = []
+        wext = []
+        in_loop = False
+        for e in leaf.events:
+            ctx = ()
+            while e[0] == "each":
+                ctx = e[1]
+                e = e[2]
+            if e[0] == "classify" and any("project.licenses" in c for c in ctx):
+                got.append(e[1])
+                in_loop = True
+            if e[0] == "without-extension":
+                wext.append(e[1])
+        short = {k: v for k, v in d.items() if k in ("@in_map", "@marked_deprecated") or (k.startswith("each ") and "project.licenses" in k)
+                 or (k.startswith("?") and "licens" in k)}
+        key = (tuple(sorted(short.items())), tuple(got), tuple(wext))
+        if key in seen or "@in_map" not in d:
+            continue
+        seen.add(key)
+        n += 1
+        r.instance("entry:" + show_valuation(short), {"valuation": show_valuation(short), "classified_as": got, "without_extension_set": wext})
+        if got != exp:
+            free = [a.split("::")[-1][1:] for a in short if a.split("::")[-1].startswith("?")]
+            r.violation(q, f"[{show_valuation(short)}] LICENSES/ entry classified as {got or 'nothing'}",
+                        f"the specification says {exp or 'nothing'}"
+                        + (f"; the classification depends on {free[0]!r} - deprecated / bad must not depend on anything but the licence map" if free else ""),
+                        f"{repo.module(RP).rel}:{leaf.trace[-1] if leaf.trace else fn.lineno}", {"valuation": d})
+        if wext != ["project.licenses_without_extension"]:
+            r.violation(q, "extension-less licences are not taken from the project's scan", f"{wext}", repo.loc(fn))
+    r.floor(3, "LICENSES/ entry cells", got=n)
+
+
+
 def run(ck: Check, repo: Repo) -> None:
     ck.explanation = (
         "Classification tables over identifier atoms: the per-identifier cell table of FileReport.generate (8 cells:"
@@ -458,3 +531,4 @@ def run(ck: Check, repo: Repo) -> None:
     rule_unused(ck, repo)
     rule_scan(ck, repo)
     rule_language_and_case(ck, repo, folder)
+    rule_inventory_loop(ck, repo)
